@@ -157,10 +157,12 @@ def draw_call(rng, pool, force_alg=None):
         which = C.ALL_PART.index(rng.choice(SEARCHERS))      # the stateful-looking algorithms get 40% of the calls
     if force_alg is not None:
         vals = list(max(pool, key=len))          # probe calls use the longest vector of the pool: the searches have something to do
-    case = {"values": vals, "pres": rng.choice(C.PRESENTATIONS), "pres_seed": rng.choice([1, 2]), "ot": rng.choice(OTS)}
+    case = {"values": vals, "pres": rng.choice(C.PRESENTATIONS + ("array_f",)), "pres_seed": rng.choice([1, 2]), "ot": rng.choice(OTS)}
     if which < 11:
         alg = C.ALL_PART[which]
-        k = 2 if alg == "cbldm" else (rng.choice([1, 2, 3, 3, 4]) if force_alg is None else rng.choice([3, 4, 5]))
+        k = 2 if alg == "cbldm" else (rng.choice([1, 2, 3, 3, 4, 4, 6, 9]) if force_alg is None else rng.choice([3, 4, 5]))
+        if k >= 6 and alg in ("rnp", "ckk", "snp", "dp", "ilp", "cg"):
+            k = 4 if alg != "cg" else k          # cost envelope / known-finding region (rnp >= 6 bins)
         case.update(kind="partition", alg=alg, k=k)
         if alg in ("cg", "dp", "ilp"):
             name = rng.choice(C.OBJ5)
